@@ -90,11 +90,20 @@ impl<'a> ExpressionEvaluator<'a> {
         self.program().expect_next_token(Token::RightParen)?;
         self.program()
             .push_function_call_onto_stack_and_goto_it(function_name, bindings)?;
-        let value = self.evaluate_expression()?;
+        let result = self.evaluate_expression();
+        if let Err(mut err) = result {
+            // Remember where in the function body the error happened, then
+            // unwind the call's stack frame so its argument bindings don't
+            // leak into whatever is evaluated next.
+            self.program().populate_error_location(&mut err);
+            self.program()
+                .pop_function_call_off_stack_and_return_from_it();
+            return Err(err);
+        }
         self.program()
             .pop_function_call_off_stack_and_return_from_it();
 
-        Ok(Some(value))
+        Ok(Some(result?))
     }
 
     fn evaluate_function_call(
